@@ -542,9 +542,29 @@ def judge_copy(case, res):
     sq, dq = res['src_q'], res['dst_q']
     for k in sorted(sq):
         if sq[k] != dq.get(k):
-            return ('C17:copy-query-differs:' + k.split()[0],
-                    '%s: source %r destination %r' % (k, sq[k], dq.get(k)))
+            sig = 'C17:copy-query-differs:' + k.split()[0]
+            if case['prog']['kind'].startswith('demo') and demo_undo_below_changes(res['src_dump'], k):
+                sig = 'C17:copy-demo-undo-below-changes'
+            return (sig, '%s: source %r destination %r' % (k, sq[k], dq.get(k)))
     return None
+
+
+def demo_undo_below_changes(dump, key):
+    """the differing query concerns an oid for which the (DemoStorage) source iterator yields an
+    un-creation record although an earlier transaction holds a revision: the undo in the changes
+    layer of an object whose pre-state lives in the base"""
+    parts = key.split()
+    if len(parts) < 2:
+        return False
+    oid = parts[1]
+    seen = False
+    for t in dump:
+        for r in t[6]:
+            if r[0] == oid:
+                if r[2] is None and seen:
+                    return True
+                seen = True
+    return False
 
 
 def nontrivial_copy(res):
@@ -717,10 +737,31 @@ def judge_recover(raw, txns, oview, dmg, obs):
         'transactions ending before the damage)' % (bad, npre)
 
 
+HUGE_READ = 2 ** 30
+
+
+class LimitedReader(io.BufferedReader):
+    """the input file of fsrecover: `read(n)` with n >= 2^30 fails like an allocator that cannot
+    satisfy the request (on a real machine the limit depends on RAM and overcommit settings; the
+    model uses the same pinned limit, `Recover.hugeRead`)"""
+
+    def read(self, n=-1):
+        if n is not None and n >= HUGE_READ:
+            raise MemoryError()
+        return super().read(n)
+
+
+def limited_open(name, mode='r', *a, **k):
+    if mode == 'rb':
+        return LimitedReader(io.FileIO(name, 'r'))
+    return open(name, mode, *a, **k)
+
+
 def recover_worker(conn, workdir, jobs):
     """child process: run fsrecover.recover on each damaged image; send one result per job"""
     import ZODB.FileStorage
     from ZODB import fsrecover
+    fsrecover.open = limited_open          # module-level rebinding in this child process only
     logging.disable(logging.CRITICAL)
     os.makedirs(workdir, exist_ok=True)
     for (jid, img) in jobs:
